@@ -219,6 +219,45 @@ def _normalise_empty_containers(tree: ast.Module) -> None:
     R().visit(tree)
 
 
+def _normalise_explaining_variables(tree: ast.Module) -> None:
+    """`t = <test>` immediately followed by `if t:` - with t bound once and read nowhere else in the function - is
+    `if <test>:`.  (The must-hold facts are read off the test expressions; an explaining variable would hide them.)"""
+    for fn in ast.walk(tree):
+        if not isinstance(fn, (ast.FunctionDef, ast.AsyncFunctionDef)):
+            continue
+        stores, loads = {}, {}
+        shared = set()
+        for n in ast.walk(fn):
+            if isinstance(n, ast.Name):
+                d = stores if isinstance(n.ctx, (ast.Store, ast.Del)) else loads
+                d[n.id] = d.get(n.id, 0) + 1
+            elif isinstance(n, (ast.Global, ast.Nonlocal)):
+                shared.update(n.names)
+        params = {a.arg for a in fn.args.posonlyargs + fn.args.args + fn.args.kwonlyargs}
+
+        def conv(body):
+            i = 0
+            while i + 1 < len(body):
+                a, f = body[i], body[i + 1]
+                if isinstance(a, ast.Assign) and len(a.targets) == 1 and isinstance(a.targets[0], ast.Name) and isinstance(f, ast.If) \
+                        and isinstance(f.test, ast.Name) and f.test.id == a.targets[0].id and stores.get(f.test.id) == 1 and loads.get(f.test.id) == 1 \
+                        and f.test.id not in params and f.test.id not in shared and isinstance(a.value, (ast.BoolOp, ast.Compare, ast.UnaryOp)):
+                    f.test = a.value
+                    del body[i]
+                    continue
+                i += 1
+            for st in body:
+                if isinstance(st, (ast.FunctionDef, ast.AsyncFunctionDef, ast.ClassDef)):
+                    continue
+                for fld in ("body", "orelse", "finalbody"):
+                    sub = getattr(st, fld, None)
+                    if isinstance(sub, list) and sub and isinstance(sub[0], ast.stmt):
+                        conv(sub)
+                for h in getattr(st, "handlers", []) or []:
+                    conv(h.body)
+        conv(fn.body)
+
+
 def _normalise_local_annotations(tree: ast.Module) -> None:
     """Inside function bodies, `x: T = v` is the same statement as `x = v` for every rule
     here: rewrite it to an Assign (the annotation is kept in `.ann`), so that adding or
@@ -394,6 +433,7 @@ class Index:
                 _normalise_empty_containers(tree)
                 _normalise_namespace_aliases(tree)
                 _normalise_returned_temps(tree)
+                _normalise_explaining_variables(tree)
                 _normalise_nested_ifs(tree)
                 if os.environ.get("VT_NO_TRAILING_IF_NORM") != "1":
                     _normalise_trailing_ifs(tree)
